@@ -341,7 +341,10 @@ def run(prop, tier, seed, replay=None):
 
     # 4. extraction cross-check on a slice
     flat = []
+    elig = getattr(prop, "vm_eligible", None)   # optional: restrict the slice (e.g. to small instances)
     for c, mo in zip(cases, model_out):
+        if elig is not None and not elig(c):
+            continue
         for call, out in zip(c["model"], mo):
             if out is not None and len(call) + len(out) < 4000:
                 flat.append((call, out))
